@@ -124,11 +124,61 @@ fn cmp_chars_to_str(s: &str, start_idx: usize, cmp_str: &str) -> bool {
     &s_bytes[start_idx..start_idx + cmp_bytes.len()] == cmp_bytes
 }
 
+// Units of the decomposed array, in the order of the indexes of the UNITS lookup table.
+const UNIT_BY_POS: [Unit; 7] = [
+    Unit::Day,
+    Unit::Hour,
+    Unit::Minute,
+    Unit::Second,
+    Unit::Millisecond,
+    Unit::Microsecond,
+    Unit::Nanosecond,
+];
+
+/// Returns the duration denoted by `text` (a number) in the provided unit.
+///
+/// A plain decimal number (`[+-]digits[.digits]`) is converted with integer arithmetic, truncated to the nanosecond:
+/// going through an f64 loses a nanosecond for most decimal fractions (4.1 is stored as 4.0999999999999996) and many
+/// nanoseconds once the product with the unit needs more than 53 bits. Any other form accepted by the float parser
+/// (e.g. an exponent) falls back on the floating point value.
+fn component(text: &str, value: f64, unit: Unit) -> Duration {
+    let (negative, digits) = match text.as_bytes().first() {
+        Some(b'-') => (true, &text[1..]),
+        Some(b'+') => (false, &text[1..]),
+        _ => (false, text),
+    };
+    let (whole, fraction) = digits.split_once('.').unwrap_or((digits, ""));
+    if (whole.is_empty() && fraction.is_empty())
+        || !whole.bytes().all(|b| b.is_ascii_digit())
+        || !fraction.bytes().all(|b| b.is_ascii_digit())
+    {
+        return value * unit;
+    }
+    // At most 18 fractional digits are used: that is finer than a nanosecond for all units and fits on an i128.
+    let fraction = &fraction[..fraction.len().min(18)];
+    let unit_ns = (unit * 1).total_nanoseconds();
+    let mut whole_ns: i128 = 0;
+    for b in whole.bytes() {
+        whole_ns = whole_ns
+            .saturating_mul(10)
+            .saturating_add(i128::from(b - b'0'));
+    }
+    let mut fraction_value: i128 = 0;
+    for b in fraction.bytes() {
+        fraction_value = fraction_value * 10 + i128::from(b - b'0');
+    }
+    let total_ns = whole_ns
+        .saturating_mul(unit_ns)
+        .saturating_add(fraction_value * unit_ns / 10_i128.pow(fraction.len() as u32));
+    Duration::from_total_nanoseconds(if negative { -total_ns } else { total_ns })
+}
+
 fn parse_duration(s: &str) -> Result<Duration, HifitimeError> {
-    let mut decomposed = [0.0_f64; 7];
+    let mut decomposed = [Duration::ZERO; 7];
     let mut prev_idx = 0;
     let mut seeking_number = true;
     let mut latest_value = 0.0;
+    let mut latest_text = "";
     let mut prev_char_was_space = false;
 
     for (idx, char) in s.char_indices() {
@@ -142,7 +192,8 @@ fn parse_duration(s: &str) -> Result<Duration, HifitimeError> {
                         });
                     }
 
-                    match lexical_core::parse(s[prev_idx..idx].as_bytes()) {
+                    latest_text = &s[prev_idx..idx];
+                    match lexical_core::parse(latest_text.as_bytes()) {
                         Ok(val) => latest_value = val,
                         Err(_) => {
                             return Err(HifitimeError::Parse {
@@ -164,7 +215,7 @@ fn parse_duration(s: &str) -> Result<Duration, HifitimeError> {
                 let mut found_unit = false;
                 for &(unit_str, pos) in UNITS {
                     if cmp_chars_to_str(s, start_idx, unit_str) {
-                        decomposed[pos] = latest_value;
+                        decomposed[pos] = component(latest_text, latest_value, UNIT_BY_POS[pos]);
                         seeking_number = true;
                         prev_idx = end_idx;
                         found_unit = true;
@@ -194,7 +245,7 @@ fn parse_duration(s: &str) -> Result<Duration, HifitimeError> {
         let mut found_unit = false;
         for &(unit_str, pos) in UNITS {
             if cmp_chars_to_str(s, start_idx, unit_str) {
-                decomposed[pos] = latest_value;
+                decomposed[pos] = component(latest_text, latest_value, UNIT_BY_POS[pos]);
                 found_unit = true;
                 break;
             }
@@ -213,16 +264,9 @@ fn parse_duration(s: &str) -> Result<Duration, HifitimeError> {
         });
     }
 
-    Ok(Duration::compose_f64(
-        1,
-        decomposed[0],
-        decomposed[1],
-        decomposed[2],
-        decomposed[3],
-        decomposed[4],
-        decomposed[5],
-        decomposed[6],
-    ))
+    Ok(decomposed
+        .iter()
+        .fold(Duration::ZERO, |sum, component| sum + *component))
 }
 
 fn parse_offset(s: &str) -> Result<Duration, HifitimeError> {
